@@ -48,6 +48,22 @@ def run(op, n):
         # the same description (a fresh load of the same file) handed to the library entry point
         d = yaml.safe_load(open(os.path.join(W, "d1.yaml")))
         return [base64.b64encode(InputOutputMixin.prepare_suit_data(d)).decode()]
+    if op == "failretry":
+        # a description object that survives a FAILED create (a referenced file was missing), then is created from again when the
+        # file is there: the result is the one of a fresh create of the same input
+        d = yaml.safe_load(open(os.path.join(W, "d1.yaml")))
+        fw_, hid = os.path.join(W, "fw.bin"), os.path.join(W, "fw.bin.hidden")
+        os.rename(fw_, hid)
+        try:
+            InputOutputMixin.prepare_suit_data(d)
+            failed = False
+        except BaseException:
+            failed = True
+        finally:
+            os.rename(hid, fw_)
+        if not failed:
+            raise RuntimeError("create did not fail although the referenced file was missing")
+        return [base64.b64encode(InputOutputMixin.prepare_suit_data(d)).decode()]
     if op == "create2":
         cmd_create.main(os.path.join(W, "d2.yaml"), "AUTO", out + ".suit")
         return [b64(out + ".suit")]
